@@ -46,6 +46,7 @@ package croncontroller
 //@ pure flushKey(jc *execution.JobConfig) string = nsname(jc.Namespace, jc.Name)
 
 //@ func CronWorker.refreshUpdatedJobConfigs
+//@   locals flushes: int
 //@   params w, now
 //@   tags C03
 //@   requires w != nil && cronschedule.swf(w.schedule)
@@ -82,6 +83,7 @@ package croncontroller
 //@ pure capOf(n int) int = n > 0 ? n : 0
 
 //@ func CronWorker.Work
+//@   locals maxMissedSchedules: int; scheduledCount: map[string]int
 //@   params w
 //@   tags C01, C03, C04
 //@   requires w != nil && cronschedule.swf(w.schedule)
